@@ -404,24 +404,27 @@ pub fn settings() -> &'static PreparationSettings {
     PreparationSettings::latest_ref()
 }
 
+// Hashes the harness signs over come from the reference composition (refhash.rs), not from
+// `prepare`: over-limit shapes must still be signable and the signatures must not depend on the
+// code under test.
 pub fn intent_hash_v1(intent: &IntentV1) -> Hash {
-    intent.prepare(settings()).expect("intent v1 prepare").transaction_intent_hash().0
+    crate::refhash::intent_v1(intent)
 }
 
 pub fn signed_intent_hash_v1(si: &SignedIntentV1) -> Hash {
-    si.prepare(settings()).expect("signed intent v1 prepare").signed_transaction_intent_hash().0
+    crate::refhash::signed_intent_v1(si).1
 }
 
 pub fn subintent_hash(s: &SubintentV2) -> Hash {
-    s.prepare(settings()).expect("subintent prepare").subintent_hash().0
+    crate::refhash::subintent_v2(s)
 }
 
 pub fn tx_intent_hash_v2(t: &TransactionIntentV2) -> Hash {
-    t.prepare(settings()).expect("tx intent v2 prepare").transaction_intent_hash().0
+    crate::refhash::tx_intent_v2(t).0
 }
 
 pub fn signed_intent_hash_v2(t: &SignedTransactionIntentV2) -> Hash {
-    t.prepare(settings()).expect("signed tx intent v2 prepare").signed_transaction_intent_hash().0
+    crate::refhash::signed_tx_intent_v2(t).1
 }
 
 /// Fully honest V1 notarized transaction.
